@@ -25,6 +25,8 @@ PANIC_TABLE = {
         "method[..n]: n is the byte position of an ASCII '.' returned by rfind on the same string, always a char boundary",
     'varlink:unwrap:Option::unwrap<-arg':
         'call.request.as_ref().unwrap(): Call::new always stores Some(request) (C04.R1 request-stored); upgraded calls never reach Interface::call',
+    'varlink:unwrap:Option::unwrap<-arg+field:request':
+        'call.request.as_ref().unwrap(): Call::new always stores Some(request) (C04.R1 request-stored); upgraded calls never reach Interface::call',
     'varlink:unwrap:Result::unwrap<-call:Stream::split':
         'stream.split().unwrap(): try_clone of the accepted socket fails only on descriptor exhaustion; noted as a residual hazard (panics this worker, busy count leaks) — not input-controlled',
     'varlink:unwrap:Result::unwrap<-call:T::lock':
